@@ -18,19 +18,19 @@ import (
 )
 
 type replayJob struct {
-	ID      int         `json:"id"`
-	Harness string      `json:"harness"`
-	Entries []vrt.Entry `json:"entries"`
-	Repeat  int         `json:"repeat"` // run up to Repeat times until an assertion fails / panic (map order)
-	WantFail bool       `json:"want_fail"`
+	ID       int         `json:"id"`
+	Harness  string      `json:"harness"`
+	Entries  []vrt.Entry `json:"entries"`
+	Repeat   int         `json:"repeat"` // run up to Repeat times until an assertion fails / panic (map order)
+	WantFail bool        `json:"want_fail"`
 }
 
 type replayOut struct {
-	ID     int         `json:"id"`
-	Start  bool        `json:"start,omitempty"`
-	Result *vrt.Result `json:"result,omitempty"`
-	AllocBytes uint64  `json:"alloc_bytes"`
-	Tries  int         `json:"tries"`
+	ID         int         `json:"id"`
+	Start      bool        `json:"start,omitempty"`
+	Result     *vrt.Result `json:"result,omitempty"`
+	AllocBytes uint64      `json:"alloc_bytes"`
+	Tries      int         `json:"tries"`
 }
 
 func runOne(h func(), name string, entries []vrt.Entry) (res *vrt.Result, alloc uint64) {
